@@ -920,6 +920,8 @@ def main():
             "corpus": corpus_runs,
             "disagreements": len(disagreements), "oracle_failures_on_impl": len(oracle_fails),
             "tie_broken": tie_broken, "source_audit_ok": oka, "constants": consts if okc else None,
+            "translated_logic": {"groups": groups, "agreement_theorems": [t for g in groups for t in AGREE_THEOREMS[g]],
+                                 "untranslatable_sites": [list(f) for f in logic_failures]},
             "known_findings_printed": known_lines, "notes": notes,
         },
         "assumptions": cfg.get("assumptions", []),
